@@ -37,9 +37,10 @@ def WF (N : Nat) (b : Bed) : Prop :=
   inRange b.chromStart ∧ inRange b.chromEnd ∧ inRange b.score ∧
   inRange b.thickStart ∧ inRange b.thickEnd ∧ inRange b.blockCount ∧
   (∀ i ∈ b.blockSizes, inRange i) ∧ (∀ i ∈ b.blockStarts, inRange i) ∧
-  -- block consistency as the reader can see it, after truncation to N fields
-  ((truncate N b).blockSizes.length : Int) = (truncate N b).blockCount ∧
-  ((truncate N b).blockStarts.length : Int) = (truncate N b).blockCount
+  -- block consistency, as the reader checks it: a list is compared with the block
+  -- count only when the line carries it (field 11 = sizes, field 12 = starts)
+  (N > 10 → (b.blockSizes.length : Int) = b.blockCount) ∧
+  (N > 11 → (b.blockStarts.length : Int) = b.blockCount)
 
 instance (s : Bytes) : Decidable (textOK s) := by unfold textOK; infer_instance
 instance (i : Int) : Decidable (inRange i) := by unfold inRange; infer_instance
@@ -89,42 +90,63 @@ def ex12 : Bed :=
 def ex3 : Bed :=
   { ex12 with n := 3, chrom := [], blockCount := 77 }
 
-/-- 11 fields: block count must be 0 and sizes empty; starts are not written. -/
+/-- 11 fields: the sizes must agree with the block count; the starts are not written
+and may hold anything. -/
 def ex11 : Bed :=
-  { ex12 with n := 11, blockCount := 0, blockSizes := [], blockStarts := [1, 2, 3] }
+  { ex12 with n := 11, blockCount := 2, blockSizes := [10, -20], blockStarts := [1, 2, 3] }
+
+/-- 10 fields: a non-zero block count with neither list written. -/
+def ex10 : Bed :=
+  { ex12 with n := 10, blockCount := 2, blockSizes := [7], blockStarts := [1, 2, 3] }
 
 /-! ## Consequences of the block-consistency clause -/
 
+/-- With at most 10 fields the block clause is no constraint at all: any block count and
+any (unwritten) lists are allowed. -/
+theorem wf_blocks_le10 (N : Nat) (b : Bed) (h : N ≤ 10) :
+    (N > 10 → (b.blockSizes.length : Int) = b.blockCount) ∧
+    (N > 11 → (b.blockStarts.length : Int) = b.blockCount) :=
+  ⟨fun h' => by omega, fun h' => by omega⟩
+
 theorem wf_blocks_le9 (N : Nat) (b : Bed) (h : N ≤ 9) :
-    ((truncate N b).blockSizes.length : Int) = (truncate N b).blockCount ∧
-    ((truncate N b).blockStarts.length : Int) = (truncate N b).blockCount := by
-  have h1 : ¬ N > 9 := by omega
-  have h2 : ¬ N > 10 := by omega
-  have h3 : ¬ N > 11 := by omega
-  simp [truncate, h1, h2, h3]
+    (N > 10 → (b.blockSizes.length : Int) = b.blockCount) ∧
+    (N > 11 → (b.blockStarts.length : Int) = b.blockCount) :=
+  wf_blocks_le10 N b (by omega)
 
-theorem wf_blocks_10 (b : Bed) (h : WF 10 b) : b.blockCount = 0 := by
-  have := h.2.2.2.2.2.2.2.2.2.2.2.2.2.2.2.1
-  simpa [truncate] using this.symm
+/-- 10 fields: only the range of the block count matters; replacing it by any other
+in-range count keeps the record well-formed (no relation to the unwritten lists). -/
+theorem wf_blocks_10 (b : Bed) (h : WF 10 b) (bc : Int) (hbc : inRange bc) :
+    WF 10 { b with blockCount := bc } := by
+  obtain ⟨h3, h12, hn, hc, hhead, hname, hstrand, hcs, hce, hsc, hts, hte, _, hsz, hst, _, _⟩ := h
+  exact ⟨h3, h12, hn, hc, hhead, hname, hstrand, hcs, hce, hsc, hts, hte, hbc, hsz, hst,
+    fun h' => by omega, fun h' => by omega⟩
 
-theorem wf_blocks_11 (b : Bed) (h : WF 11 b) : b.blockCount = 0 ∧ b.blockSizes = [] := by
-  have h1 := h.2.2.2.2.2.2.2.2.2.2.2.2.2.2.2.1
-  have h2 := h.2.2.2.2.2.2.2.2.2.2.2.2.2.2.2.2
-  simp [truncate] at h1 h2
-  refine ⟨h2.symm, ?_⟩
-  rw [← h2] at h1
-  exact List.eq_nil_of_length_eq_zero (by omega)
+/-- 11 fields: the sizes (written) must agree with the count; the starts (not written) are free. -/
+theorem wf_blocks_11 (b : Bed) (h : WF 11 b) : (b.blockSizes.length : Int) = b.blockCount :=
+  h.2.2.2.2.2.2.2.2.2.2.2.2.2.2.2.1 (by omega)
 
 theorem wf_blocks_12 (b : Bed) (h : WF 12 b) :
-    (b.blockSizes.length : Int) = b.blockCount ∧ (b.blockStarts.length : Int) = b.blockCount := by
-  have h1 := h.2.2.2.2.2.2.2.2.2.2.2.2.2.2.2.1
-  have h2 := h.2.2.2.2.2.2.2.2.2.2.2.2.2.2.2.2
-  simpa [truncate] using And.intro h1 h2
+    (b.blockSizes.length : Int) = b.blockCount ∧ (b.blockStarts.length : Int) = b.blockCount :=
+  ⟨h.2.2.2.2.2.2.2.2.2.2.2.2.2.2.2.1 (by omega), h.2.2.2.2.2.2.2.2.2.2.2.2.2.2.2.2 (by omega)⟩
 
 example : WF 12 ex12 := by decide
 example : WF 3 ex3 := by decide
 example : WF 11 ex11 := by decide
-example : ¬ WF 11 ex12 := by decide
+example : WF 10 ex10 := by decide
+/-- New domain, N = 10: non-zero block count, lists that do not match it. -/
+example : WF 10 ex10 ∧ ex10.blockCount ≠ 0 ∧ (ex10.blockSizes.length : Int) ≠ ex10.blockCount ∧
+    (ex10.blockStarts.length : Int) ≠ ex10.blockCount := by decide
+/-- New domain, N = 11: sizes = count ≠ 0, and non-empty unwritten starts of another length. -/
+example : WF 11 ex11 ∧ ex11.blockCount ≠ 0 ∧ (ex11.blockSizes.length : Int) = ex11.blockCount ∧
+    ex11.blockStarts ≠ [] ∧ (ex11.blockStarts.length : Int) ≠ ex11.blockCount := by decide
+/-- `ex12` cut to 10 or 11 fields is well-formed as well (it was not before the reader's repair). -/
+example : WF 11 { ex12 with n := 11 } ∧ WF 10 { ex12 with n := 10 } := by decide
+/-- Still outside: sizes that disagree with the count, from 11 fields on. -/
+example : ¬ WF 11 { ex12 with n := 11, blockSizes := [10] } := by decide
+example : ¬ WF 12 { ex12 with blockSizes := [10] } := by decide
+example : ¬ WF 12 { ex12 with blockStarts := [0, 300, 5] } := by decide
+/-- Hypotheses of `wf_blocks_10` are satisfiable. -/
+example : WF 10 ex10 ∧ inRange 9223372036854775807 := by decide
 
 /-! ## 1. Record round trip -/
 
@@ -157,9 +179,32 @@ example : encodeLine ex3 = some
 example : parseLine (splitOn TAB ((encodeLine ex12).getD [])) = some ex12 := by decide +kernel
 example : parseLine (splitOn TAB ((encodeLine ex3).getD [])) = some (truncate 3 ex3) := by decide +kernel
 
-/-- The block clause of `WF` is needed: with 10 fields and a non-zero block count the
-reader rejects what the writer wrote (sizes are not written, so their count is 0 ≠ 2). -/
-example : parseLine (splitOn TAB ((encodeLine { ex12 with n := 10 }).getD [])) = none := by
+/-- 10 fields and block count 2 DO round-trip (since the reader's repair): the lists are
+not written, the reader reports block count 2 and empty lists. -/
+example : parseLine (splitOn TAB ((encodeLine { ex12 with n := 10 }).getD []))
+    = some (truncate 10 { ex12 with n := 10 }) := by decide +kernel
+example : (truncate 10 { ex12 with n := 10 }).blockCount = 2 ∧
+    (truncate 10 { ex12 with n := 10 }).blockSizes = [] ∧
+    (truncate 10 { ex12 with n := 10 }).blockStarts = [] := by decide
+example : parseLine (splitOn TAB ((encodeLine ex10).getD [])) = some (truncate 10 ex10) := by
+  decide +kernel
+/-- 11 fields, sizes = count = 2, three unwritten starts: round-trips, the starts read back empty. -/
+example : parseLine (splitOn TAB ((encodeLine ex11).getD [])) = some (truncate 11 ex11) := by
+  decide +kernel
+example : (truncate 11 ex11).blockCount = 2 ∧ (truncate 11 ex11).blockSizes = [10, -20] ∧
+    (truncate 11 ex11).blockStarts = [] := by decide
+/-- The block clause of `WF` is needed from 11 fields on.  12 fields, one size for block
+count 2: the writer writes the line, the reader rejects it. -/
+example : (encodeLine { ex12 with blockSizes := [10] }).isSome ∧
+    parseLine (splitOn TAB ((encodeLine { ex12 with blockSizes := [10] }).getD [])) = none := by
+  decide +kernel
+/-- 12 fields, three starts for block count 2: rejected. -/
+example : (encodeLine { ex12 with blockStarts := [0, 300, 5] }).isSome ∧
+    parseLine (splitOn TAB ((encodeLine { ex12 with blockStarts := [0, 300, 5] }).getD [])) = none := by
+  decide +kernel
+/-- 11 fields, one size for block count 2: rejected. -/
+example : (encodeLine { ex12 with n := 11, blockSizes := [10] }).isSome ∧
+    parseLine (splitOn TAB ((encodeLine { ex12 with n := 11, blockSizes := [10] }).getD [])) = none := by
   decide +kernel
 /-- The `#` clause of `WF` is needed: a chrom starting with `#` makes the line a comment. -/
 example : decode ((encode { ex12 with chrom := [35, 49] }).getD []) = [] := by decide +kernel
